@@ -510,6 +510,8 @@ func (vc *FuncVC) execBlock(b *ssa.BasicBlock) {
 			t := vc.declare("v!"+ph.Name(), vc.sortOf(ph.Type()))
 			vc.assume(vc.typeInv(t, ph.Type()))
 			vc.vals[ph] = &Val{T: t, Typ: ph.Type()}
+			// memory-model invariant: every reference held in a variable is nil or allocated
+			vc.assumeAllocated(t, ph.Type())
 			vc.nInstr++
 		}
 		env := vc.newEnv(vc.cur, vc.entryState)
@@ -592,6 +594,30 @@ func (vc *FuncVC) loopInvs(li *loopInfo) []invFn {
 				return tTrue
 			}
 			return T(fmt.Sprintf("(forall ((r Int)) (! (=> (select %s r) (select %s r)) :pattern ((select %s r))))", a0.S, a.S, a.S), SBool)
+		}, nil})
+	}
+	// call logs with the default tag: the n-th call is logged under n, so the logged
+	// indices are exactly [0, calls)
+	seenLabel := map[string]bool{}
+	for _, lab := range li.logLabels {
+		if seenLabel[lab] {
+			continue
+		}
+		seenLabel[lab] = true
+		var w *Watch
+		for _, x := range vc.watches {
+			if x.Label == lab {
+				w = x
+			}
+		}
+		if w == nil || w.Tag != nil {
+			continue
+		}
+		lab := lab
+		out = append(out, invFn{"auto.log." + lab, "called(" + lab + ",n) <==> 0 <= n < calls(" + lab + ")", func(env *Env) Term {
+			cnt := env.st.get(vc.logComp("", lab, "cnt", ""))
+			called := env.st.get(vc.logComp("", lab, "called", SBool))
+			return T(fmt.Sprintf("(and (>= %s 0) (forall ((n Int)) (! (= (select %s n) (and (<= 0 n) (< n %s))) :pattern ((select %s n)))))", cnt.S, called.S, cnt.S, called.S), SBool)
 		}, nil})
 	}
 	if vc.C != nil && len(vc.C.Stable) > 0 && li.havoc {
